@@ -244,4 +244,23 @@ B("r2-exclude-type-conversion", "C15", "C15-R3",
 B("r2-bool-template-literal", "C16", "C16-R3",
   (CFG, '            "recursive": bool,', '            "recursive": False,'))
 
+# ------------------------------------------------------------------ round-3 rules: direct breakers and benign twins
+B("r3-overstrict-class-arity", ["C09", "C02"], ["C09-R6", "C02-R11"],
+  (AGG, "        if len(ctx.single_argument()) < 1:\n            pretty_text = docstring\n            pretty_text += f\"\\n{ctx.getText()}\"\n\n            self.logger.error(f\"cpp_class() called",
+   "        if len(ctx.single_argument()) < 1 or len(ctx.single_argument()) > 4:\n            pretty_text = docstring\n            pretty_text += f\"\\n{ctx.getText()}\"\n\n            self.logger.error(f\"cpp_class() called"))
+B("r3-finally-return", "C06", "C06-R10",
+  (DOC, "        self.process_docs(self.aggregator.documented)\n", "        try:\n            self.process_docs(self.aggregator.documented)\n        finally:\n            return self.writer\n"))
+B("r3-lf-only-replace", "C04", "C04-R6",
+  (AGG, "        cleaned_doc = \"\\n\".join(cleaned_lines)", "        cleaned_doc = \"\\n\".join(cleaned_lines).replace(\" \\n\", \"\\n\")"))
+G("r3-crlf-aware-replace", ["C04", "C01"],
+  (AGG, 'logger.error(f"cpp_class() called with incorrect parameters', 'logger.error(f"cpp_class() called with incorrect parameters'))
+B("r3-raise-on-state", "C05", "C05-R10",
+  (AGG, "    def enterBracket_doccomment(self, ctx", "    def exitCmake_file(self, ctx):\n        if self.documented_classes_stack:\n            raise CMakeSyntaxException(\"unterminated cpp_class\", 0)\n\n    def enterBracket_doccomment(self, ctx"))
+B("r3-strict-zip", ["C05", "C02"], ["C05-R9", "C02-R9"],
+  (DT, "        for i in range(len(self.param_types)):\n            if i >= len(self.params):\n                break\n", "        for i, (_p, _t) in enumerate(zip(self.params, self.param_types, strict=True)):\n"))
+B("r3-cmake-working-directory", "C19", "C19-R2",
+  (CM, "        OUTPUT_VARIABLE process_output", "        WORKING_DIRECTORY \"${CMAKE_CURRENT_SOURCE_DIR}\"\n        OUTPUT_VARIABLE process_output"))
+B("r3-exclude-filters-set", ["C15", "C17"], ["C15-R3", "C17-R4"],
+  (INIT, "    settings_obj.input.exclude_filters = list(\n        settings[\"input\"][\"exclude_filters\"].all_contents())", "    settings_obj.input.exclude_filters = list(set(\n        settings[\"input\"][\"exclude_filters\"].all_contents()))"))
+
 VARIANTS = [v for v in VARIANTS if v is not None]
